@@ -969,8 +969,8 @@ class _RecordRun:
                     ctx.fail("refused_side_effect", self.facts(**f), f"constraints changed {before}->{rt.constraints}")
             return
         # edit of an existing observation-dim constraint: resizes that dim (outside ring semantics) — only no-op edits
-        if m.init and shape[dim] != size:
-            return
+        if shape[dim] != size:
+            return   # (also while uninitialised: the edit would be accepted now and contradict the first push - a user error)
         with ctx.impl("reconstrain(edit noop)", self.facts(**f)):
             rt.reconstrain(dim, size)
         ctx.log("reconstrain_edit", dim, size)
